@@ -1,6 +1,6 @@
 #!/bin/bash
 # run every claimed check (quick by default) on the current tree and validate the evidence files
-cd /verif
+cd "$(dirname "$0")/.."
 tier=${1:-quick}
 ids=$(python3 -c "import json;print(' '.join(c['property_id'] for c in json.load(open('MANIFEST.json'))['checks']))")
 fail=0
@@ -12,7 +12,7 @@ done
 python3-vt - <<'PY'
 import json,jsonschema,glob
 S=json.load(open('/root/.vp/EVIDENCE.schema.json'))
-for f in sorted(glob.glob('/verif/evidence/*.json')):
+for f in sorted(glob.glob('evidence/*.json')):
     e=json.load(open(f)); jsonschema.validate(e,S)
     c=e['coverage']
     assert c['obligations']==c['discharged'], f
